@@ -365,6 +365,17 @@ def shrink(prop, plan, oracle, budget=250):
 
                 try_list(get_f, set_f)
             rw = best.get("scripts", {}).get(key, {}).get("replies", [])
+            if j < len(rw) and rw[j].get("varbinds"):
+                def get_vb(p, key=key, j=j):
+                    try:
+                        return p["scripts"][key]["replies"][j].get("varbinds", [])
+                    except (KeyError, IndexError):
+                        return []
+
+                def set_vb(p, v, key=key, j=j):
+                    p["scripts"][key]["replies"][j]["varbinds"] = v
+
+                try_list(get_vb, set_vb)
             if j < len(rw) and rw[j].get("rewrite"):
                 def get_rw(p, key=key, j=j):
                     try:
@@ -376,6 +387,20 @@ def shrink(prop, plan, oracle, budget=250):
                     p["scripts"][key]["replies"][j]["rewrite"] = dict(v)
 
                 try_list(get_rw, set_rw)
+    # OID lists of get_many ops
+    for n in range(len(best.get("ops", []))):
+        if len(best["ops"][n].get("oids", [])) > 1:
+            def get_o(p, n=n):
+                try:
+                    return p["ops"][n].get("oids", [])
+                except IndexError:
+                    return []
+
+            def set_o(p, v, n=n):
+                if v:
+                    p["ops"][n]["oids"] = v
+
+            try_list(get_o, set_o)
     # MIB rows
     if best.get("agent", {}).get("mib"):
         try_list(lambda p: p["agent"]["mib"], lambda p, v: p["agent"].__setitem__("mib", v))
